@@ -103,6 +103,60 @@ pub fn count_ladder_programs(tier: crate::shard::Tier) -> Vec<(usize, Vec<Stmt>)
     sizes.sort();
     sizes.dedup();
     let mut out = Vec::new();
+    // the big end: hundreds of thousands to a million objects between two collections, for the few shapes
+    // that can get there in a second: garbage floats, and a linked list with the link FIRST and with the link
+    // LAST in each cell (how much is pending during marking depends on that order); afterwards an array literal
+    // made of temporaries, a call, and a walk over the whole list
+    {
+        let mut big: Vec<usize> = vec![100_000, (1 << 17) - 1, 1 << 17, (1 << 17) + 1, 200_000, (1 << 18) + 1, 300_000, (1 << 19) - 1, 1 << 19, (1 << 19) + 1, 600_000, 1_000_000, (1 << 20) + 1];
+        if tier != crate::shard::Tier::Quick {
+            big.extend([(1 << 21) + 1, 3_000_000]);
+        }
+        for n in big {
+            let ni = n as i64;
+            // garbage floats, then an array literal whose elements are temporaries, a call, a read-back
+            out.push((
+                n,
+                vec![
+                    let_("x", flt(1.5)),
+                    let_("i", int(0)),
+                    es(whil(infix(id("i"), Operator::Lt, int(ni)), vec![es(assign(id("x"), infix(id("x"), Operator::Multiply, flt(1.0)))), es(op_assign("i", Operator::Add, int(1)))])),
+                    let_("lijst", array(vec![infix(id("x"), Operator::Add, flt(1.5)), calln("string", vec![id("i")]), array(vec![infix(id("x"), Operator::Add, flt(2.5))]), string("lit")])),
+                    es(func("f", &["p"], vec![es(array(vec![id("p"), flt(2.5)]))])),
+                    es(calln("f", vec![int(1)])),
+                    let_("ander", array(vec![infix(id("x"), Operator::Multiply, flt(5.0)), calln("string", vec![int(7)])])),
+                    es(array(vec![id("lijst"), id("ander")])),
+                ],
+            ));
+            // a linked list, link last / link first, walked after a collection
+            for link_last in [true, false] {
+                if n > 1_100_000 {
+                    continue;
+                }
+                let cell = if link_last { array(vec![infix(calln("float", vec![id("i")]), Operator::Add, flt(0.5)), id("l")]) } else { array(vec![id("l"), infix(calln("float", vec![id("i")]), Operator::Add, flt(0.5))]) };
+                let (vi, li) = if link_last { (0, 1) } else { (1, 0) };
+                out.push((
+                    n,
+                    vec![
+                        let_("l", array(vec![])),
+                        let_("i", int(0)),
+                        es(whil(infix(id("i"), Operator::Lt, int(ni)), vec![es(op_assign("i", Operator::Add, int(1))), es(assign(id("l"), cell))])),
+                        es(func("f", &["p"], vec![es(array(vec![id("p"), flt(2.5)]))])),
+                        es(calln("f", vec![int(1)])),
+                        let_("junk", array(vec![flt(9.5), string("j")])),
+                        let_("som", flt(0.0)),
+                        let_("k", int(0)),
+                        let_("c", id("l")),
+                        es(whil(
+                            infix(calln("lengte", vec![id("c")]), Operator::Gt, int(0)),
+                            vec![es(assign(id("som"), infix(id("som"), Operator::Add, index(id("c"), int(vi))))), es(assign(id("c"), index(id("c"), int(li)))), es(op_assign("k", Operator::Add, int(1)))],
+                        )),
+                        es(array(vec![id("som"), id("k")])),
+                    ],
+                ));
+            }
+        }
+    }
     for n in sizes {
         let ni = n as i64;
         // two phases: N objects survive a first collection; then, nine times, fresh values are stored into
